@@ -448,3 +448,15 @@ def loc(module: ModuleInfo, node: ast.AST) -> str:
 def full(node: ast.AST) -> str:
     """whole normalised text of a node, compound statements included"""
     return " ".join(ast.unparse(node).split())
+
+
+def resolve_local(fnode: ast.AST, e: ast.AST, hops: int = 4) -> ast.AST:
+    """follow a plain local name to the expression of its single assignment inside the function (a value handed on through a local is the same value)"""
+    for _ in range(hops):
+        if not isinstance(e, ast.Name):
+            break
+        defs = [n for n in ast.walk(fnode) if isinstance(n, ast.Assign) and len(n.targets) == 1 and isinstance(n.targets[0], ast.Name) and n.targets[0].id == e.id]
+        if len(defs) != 1 or any(isinstance(n, ast.AugAssign) and isinstance(n.target, ast.Name) and n.target.id == e.id for n in ast.walk(fnode)):
+            break
+        e = defs[0].value
+    return e
